@@ -67,7 +67,46 @@ def accessors(eng, res, rule="R-ACCESSORS"):
     res.ob(rule, init, "fragment-from-token", "a fragment's atoms are exactly RDKit's parse of the token's own fragment SMILES", init.node, ok, why)
 
 
+def fragment_template(eng, res, rule="R-FRAGMENT"):
+    """generate_smiles_fragment: text elements verbatim, atoms as written, every bond descriptor replaced by a break
+    '.', then empty branches '(.)' removed, '.)' -> ')', outer dots stripped — so a fragment has exactly the token's
+    atoms and internal bonds and nothing in place of the descriptors."""
+    from .c17 import locate
+
+    f = eng.prog.cls("SmilesToken").method("generate_smiles_fragment")
+    if f is None:
+        raise AnalysisError("SmilesToken.generate_smiles_fragment not found")
+    res.unit(f)
+    fl = eng.flow(f)
+    cfg = fl.cfg
+    e, nd = locate(f, ["for $E in self.elements", "if isinstance($E, str)", "$ES += $E", "if isinstance($E, Atom)", "$ES += $E.generate_string(False)",
+                       "if isinstance($E, BondDescriptor)", "$ES += '.'", "$S += $ES", "$S = $S.replace('(.)', '')", "$S = $S.replace('.)', ')')", "$S = $S.strip('.')", "return $S"])
+    res.ob(rule, f, "shape", "text verbatim, atoms as written, each descriptor becomes the break '.', then '(.)' removed, '.)' -> ')', outer '.' stripped", f.node, e is not None,
+           "statement pattern of the fragment printer not found")
+    if e is None:
+        return
+    lp = nd["for $E in self.elements"]
+    # each contribution under exactly its own kind test; the per-element text is reset each round and appended once
+    pairs = [("$ES += $E", f"isinstance({e['E']}, str)"), ("$ES += $E.generate_string(False)", f"isinstance({e['E']}, Atom)"), ("$ES += '.'", f"isinstance({e['E']}, BondDescriptor)")]
+    ok = True
+    for pat_, g in pairs:
+        n = nd[pat_]
+        gs = [(src(t), pol) for t, pol in cfg.guard_exprs(cfg.node_of(n)) if isinstance(getattr(t, "_parent"), ast.If)]
+        ok = ok and gs == [(g, True)]
+    res.ob(rule, f, "kinds", "each element kind contributes under exactly its own type test", lp, ok)
+    app = nd["$S += $ES"]
+    reset = [d for d in fl.defs if d.name == e["ES"] and d.kind == "assign"]
+    ok = lp in cfg.enclosing_loops(app) and len(reset) == 1 and src(reset[0].value) == "''" and lp in cfg.enclosing_loops(reset[0].stmt) and cfg.must_pass(reset[0].nid, cfg.node_of(app))
+    starts = [d for d, l in cfg.succ[cfg.node_of(lp)] if l == "T"]
+    ok = ok and cfg.node_of(lp) not in cfg.reachable(starts, avoid_nodes={cfg.node_of(app)}) or ok and cfg.raises
+    res.ob(rule, f, "one-piece-per-element", "every element contributes exactly one piece, in order", app, bool(ok))
+    order = [cfg.node_of(nd[p]) for p in ("$S = $S.replace('(.)', '')", "$S = $S.replace('.)', ')')", "$S = $S.strip('.')", "return $S")]
+    ok = all(order[i + 1] in cfg.reachable([order[i]]) and order[i] not in cfg.reachable([order[i + 1]]) for i in range(3)) and all(not cfg.enclosing_loops(nd[p]) for p in nd if p.startswith("$S = "))
+    res.ob(rule, f, "clean-up-order", "empty branches are removed first, then dangling breaks before ')', then outer breaks; the cleaned text is returned", f.node, ok)
+
+
 def check(eng, res):
+    res.doc("R-FRAGMENT", "the fragment SMILES of a token: atoms and internal bonds as written, descriptors become breaks, empty branches removed")
     res.doc("R-ATOM-SOURCE", "atoms enter a MolGen only through MolFromSmiles(token fragment) in the constructor and CombineMols in attach_other")
     res.doc("R-ONE-BOND", "exactly one AddBond, one residue-graph edge, one CombineMols, one disjoint_union per attachment, none in a loop")
     res.doc("R-FRESH-OTHER", "`other` is always a fresh MolGen(token) (single-node graph): residue graph stays a tree by induction")
@@ -80,6 +119,7 @@ def check(eng, res):
     ns = c04.fresh_other(eng, res)
     res.floor("R-FRESH-OTHER", ns, 3)
     accessors(eng, res)
+    fragment_template(eng, res)
     res.assumptions += ["CombineMols / AddBond / deepcopy behave as documented", "induction over attach_other: |V| grows by the other side's nodes, |E| by its edges + 1"]
     res.not_decided += [
         "chemical sanitisation succeeding, hydrogen counts of unbracketed atoms, mass additivity, identity of charges / isotopes with the token (RDKit semantics on runtime values)",
